@@ -53,6 +53,20 @@ func main() {
 		os.Exit(cmdRun(os.Args[2:]))
 	case "replay":
 		os.Exit(cmdReplay(os.Args[2:]))
+	case "selftest":
+		prog, err := loadAll()
+		if err != nil {
+			fmt.Println("load error:", err)
+			os.Exit(2)
+		}
+		n, bad := runSelftest(prog)
+		fmt.Printf("selftest: %d records compared, %d harnesses disagree\n", n, len(bad))
+		for _, b := range bad {
+			fmt.Println("  MISMATCH", b)
+		}
+		if len(bad) > 0 {
+			os.Exit(1)
+		}
 	case "list":
 		prog, err := loadAll()
 		if err != nil {
@@ -334,6 +348,15 @@ func cmdCheck(args []string) int {
 		ev.write(start)
 		return 0
 	}
+	if *tier == "thorough" {
+		n, bad := runSelftest(prog)
+		ev.SelftestRecords = n
+		for _, b := range bad {
+			msg := "translator selftest disagreement (interpreter vs native build): " + b
+			fmt.Println("INCONCLUSIVE", msg)
+			ev.Inconclusive = append(ev.Inconclusive, msg)
+		}
+	}
 	known := loadKnown()
 	expReach := expectedReach(prop)
 	reachedAll := map[string]bool{}
@@ -390,4 +413,54 @@ func cmdCheck(args []string) int {
 	}
 	ev.write(start)
 	return exit
+}
+
+
+// runSelftest pushes concrete inputs through the interpreter and through the native build and
+// compares the recorded outputs (translator validation). Returns records compared and the
+// harnesses that disagree.
+func runSelftest(prog *Program) (int, []string) {
+	var names []string
+	for n := range prog.harness {
+		if strings.HasPrefix(n, "VH_ST_") {
+			names = append(names, n)
+		}
+	}
+	sort.Strings(names)
+	cfg := baseConfig("quick")
+	cfg.Workers = 1
+	total := 0
+	var bad []string
+	for _, h := range names {
+		hr := explore(prog, cfg, h)
+		if len(hr.Incon) > 0 || hr.Paths != 1 {
+			bad = append(bad, fmt.Sprintf("%s: interpreter run not clean (%d paths) %v", h, hr.Paths, hr.Incon))
+			continue
+		}
+		doc := ReplayDoc{Property: "selftest", Harness: h, Kind: "selftest", Inputs: map[string]uint64{}, Tier: curTier}
+		dir := filepath.Join(verifDir, "replays", "selftest")
+		os.MkdirAll(dir, 0o755)
+		path := filepath.Join(dir, h+".json")
+		data, _ := json.Marshal(doc)
+		os.WriteFile(path, data, 0o644)
+		rr := runReplay(&doc, path)
+		var native []string
+		for _, line := range strings.Split(rr.Output, "\n") {
+			if strings.HasPrefix(line, "VERIF-RECORD ") {
+				native = append(native, strings.TrimPrefix(line, "VERIF-RECORD "))
+			}
+		}
+		total += len(native)
+		if len(native) == 0 || len(native) != len(hr.Records) {
+			bad = append(bad, fmt.Sprintf("%s: %d native records vs %d interpreted", h, len(native), len(hr.Records)))
+			continue
+		}
+		for i := range native {
+			if native[i] != hr.Records[i] {
+				bad = append(bad, fmt.Sprintf("%s: record %d native %q vs interpreted %q", h, i, native[i], hr.Records[i]))
+				break
+			}
+		}
+	}
+	return total, bad
 }
